@@ -83,6 +83,7 @@ pub struct ProbeSnap {
     pub out_of_range: u64,
     pub bad_sub: u64,
     pub noncontig: u64,
+    pub log: Vec<u8>,
 }
 
 pub struct Trace<T> {
@@ -128,6 +129,7 @@ fn snap(p: &Option<Arc<ProbeStat>>) -> Option<ProbeSnap> {
         out_of_range: s.out_of_range.load(Ordering::Relaxed),
         bad_sub: s.bad_sub.load(Ordering::Relaxed),
         noncontig: s.noncontig.load(Ordering::Relaxed),
+        log: std::mem::take(&mut *s.log.lock().unwrap()),
     })
 }
 
